@@ -9,7 +9,7 @@ M  kernel lemmas from the MIR of dp_event::{gaussian_noise_multiplier, gaussian_
      L4  gaussian_noise(eps, delta, C) = multiplier(eps, delta) * C         (sigma is the multiplier times the clip bound)
 Glue (per query x DpParameters, concrete; reported as such): in the relation returned by the real compiler every noised
    column is traced back structurally to its clip literal C; with K noised columns of one aggregation sharing the budget
-   (eps_a, delta_a) handed to it, eps_i = sqrt(2 ln(1.25 / (delta_a / K))) / (sigma_i / C_i) must satisfy sum eps_i <= eps_a;
+   (eps_a, delta_a) handed to it there must be a split delta_a = sum delta_i with sum_i sqrt(2 ln(1.25 / delta_i)) / (sigma_i / C_i) <= eps_a;
    the event must list one Gaussian entry per noised column with multiplier <= sigma_i / C_i, and a key release must be
    recorded with at least the (eps, delta) share that reproduces the tau literal.
 """
@@ -129,6 +129,43 @@ def clip_literal(P, X):
     return None
 
 
+def min_epsilon(mults, delta):
+    """the least total epsilon that basic composition can certify for Gaussian mechanisms with noise multipliers `mults`
+    when the total delta may be split freely: minimise sum_i sqrt(2 ln(1.25 / d_i)) / m_i subject to sum_i d_i = delta.
+    The objective is convex in each d_i (d_i << 1); KKT: all partial derivatives equal -> nested bisection. The even split
+    and the split proportional to 1/m_i are tried as well; the minimum of all candidates is returned (an upper bound of the
+    true minimum is enough: the check passes as soon as one admissible split fits the budget)."""
+    K = len(mults)
+    f = lambda d, m: math.sqrt(2 * math.log(1.25 / d)) / m
+    cands = [[delta / K] * K]
+    w = [1.0 / m for m in mults]
+    cands.append([delta * x / sum(w) for x in w])
+    # KKT: -f'(d) = 1 / (m d sqrt(2 ln(1.25/d))) = lam  for every i
+    g = lambda d, m: 1.0 / (m * d * math.sqrt(2 * math.log(1.25 / d)))
+
+    def d_of(lam, m):
+        lo, hi = 1e-300, min(delta, 1.0)
+        for _ in range(200):
+            mid = math.sqrt(lo * hi)
+            if g(mid, m) > lam:
+                lo = mid
+            else:
+                hi = mid
+        return hi
+    lo, hi = 1e-30, 1e300
+    for _ in range(300):
+        lam = math.sqrt(lo * hi)
+        tot = sum(d_of(lam, m) for m in mults)
+        if tot > delta:
+            lo = lam
+        else:
+            hi = lam
+    ds = [d_of(hi, m) for m in mults]
+    if sum(ds) <= delta * (1 + 1e-9) and all(0 < d < 1 for d in ds):
+        cands.append(ds)
+    return min(sum(f(d, m) for d, m in zip(c, mults)) for c in cands)
+
+
 def main():
     tier = sys.argv[1] if len(sys.argv) > 1 else "quick"
     ck = Check(PID, tier, "model_checking")
@@ -196,7 +233,15 @@ def main():
     tabs = pucat.tables(K)
     pus = pucat.pu_defs()
     jobs, keys = [], []
-    for sql in PROGRAMS:
+    import random as _random
+    rnd = _random.Random(seed() * 104729 + 3)
+    extra, seen = [], set(PROGRAMS)
+    while len(extra) < (8 if tier == "quick" else 80):
+        q = pucat.random_dp_program(rnd)[0]
+        if q not in seen:
+            seen.add(q)
+            extra.append(q)
+    for sql in list(PROGRAMS) + extra:
         for prm in (PARAMS if tier != "quick" else ["e1", "e05"]):
             jobs.append(dict(op="rewrite", mode="dp", tables=tabs, privacy_unit=pus["chain"], dp=PARAMS[prm], synthetic=False, sql=sql))
             keys.append((sql, prm))
@@ -267,13 +312,11 @@ def main():
         spent = {}
         for g, cs in groups.items():
             Kc = len(cs)
-            tot = 0.0
-            for c in cs:
-                mult_i = c["sigma"] / c["C"] if c["C"] > 0 else float("inf")
-                tot += math.sqrt(2 * math.log(1.25 / (del_a / Kc))) / mult_i
+            mults_ = [c["sigma"] / c["C"] for c in cs if c["C"] > 0]
+            tot = min_epsilon(mults_, del_a) if len(mults_) == Kc else float("inf")
             spent[g] = tot
             if tot > eps_a * (1 + 1e-6):
-                ck.violation("budget=applied-noise-exceeds-aggregation-budget", "`%s` (%s): the %d noised columns of aggregation %s carry sigma/C = %s; with delta split evenly they spend epsilon = %g, the aggregation was handed %g" % (
+                ck.violation("budget=applied-noise-exceeds-aggregation-budget", "`%s` (%s): the %d noised columns of aggregation %s carry sigma/C = %s; under the best split of delta they spend epsilon = %g, the aggregation was handed %g" % (
                     sql, prm, Kc, g, [round(c["sigma"] / c["C"], 4) for c in cs], tot, eps_a), rec)
         rec["epsilon_spent_by_applied_noise"] = spent
         # key release: recorded with at least what reproduces the tau literal
